@@ -73,7 +73,7 @@ def run(tier):
         c["origin"] = "MC_C16/" + c["kind"]
         c["source_names"] = sorted(set(IDENT.findall(c["src"])))
     n = len(cases)
-    for p in families.all_programs(chk, depth_values=0 if tier == "quick" else 1, depth_verdict=0, only=("MC_C01", "MC_C06", "MC_C08"), gen=150 if tier == "quick" else 3000, forms=True):
+    for p in families.all_programs(chk, depth_values=0 if tier == "quick" else 1, depth_verdict=0, only=("MC_C01", "MC_C06", "MC_C08"), gen=150 if tier == "quick" else 1000, forms=True):
         cases.append({"id": n, "src": p["src"], "origin": "%s/%s" % (p["family"], p["kind"]), "source_names": sorted(set(IDENT.findall(p["src"])))})
         n += 1
     for rel, text in corpus.repo_samples(kinds=("valid",)):
